@@ -54,4 +54,7 @@ def for_property(prop):
     for (name, rel, old, new) in BENIGN.get(prop, []):
         out.append(dict(name=name, kind="benign", apply=_edit(rel, old, new)))
     out += seeded_for(prop)
+    # behaviour-preserving refactorings written by independent sub-agents (/verif/benign): every check must stay silent
+    for patch in sorted(glob.glob(os.path.join(HERE, "benign", "*.diff"))):
+        out.append(dict(name="benign:" + os.path.basename(patch), kind="benign", apply=_patch(patch)))
     return out
